@@ -382,6 +382,11 @@ pub fn c07(c: &mut Ctx, b: &Budget) {
         let s = gen_env(c, &cfg, 1);
         let n = c.rng.range(2, if b.thorough { 5 } else { 4 });
         let asserts: Vec<String> = (0..n).map(|_| gen_assertion(c, &cfg, 1)).collect();
+        // two different assertions with one digest (a known value n and a leaf holding #6.40000(n) hash alike; so do an element
+        // and its obscured form): whichever is added first stays, so the result depends on the order - a recorded finding, keyed
+        let collision = { let es: Vec<Envelope> = asserts.iter().filter_map(|a| c.env(a)).collect(); es.iter().enumerate().any(|(i2, x)| es.iter().skip(i2 + 1).any(|y| x.digest() == y.digest() && x.tagged_cbor().to_cbor_data() != y.tagged_cbor().to_cbor_data())) };
+        if collision { c.count("branch:equal-digest-distinct-assertions"); }
+        let perm_key = if collision { "equal-digest-distinct-assertions" } else { "permutation-invariant" };
         let mut perms = permutations(n);
         if !b.thorough && perms.len() > 8 { c.rng.shuffle(&mut perms); perms.truncate(8); }
         let mut first: Option<(String, Vec<u8>)> = None;
@@ -397,7 +402,7 @@ pub fn c07(c: &mut Ctx, b: &Budget) {
                 let bytes = x.tagged_cbor().to_cbor_data();
                 match &first {
                     None => { observe_env(c, &e, true); first = Some((e.clone(), bytes)); }
-                    Some((_, b0)) => c.check("permutation-invariant", &bytes == b0, "permutation-invariant", || format!("order {:?}: {}", p, shape(&x))),
+                    Some((_, b0)) => c.check("permutation-invariant", &bytes == b0, perm_key, || format!("order {:?}: {}", p, shape(&x))),
                 }
             }
         }
@@ -416,7 +421,7 @@ pub fn c07(c: &mut Ctx, b: &Budget) {
             c.count("branch:bulk-route");
             if let Some(x) = c.env(&m) {
                 c.obs(&format!("digest {}", m));
-                c.check("bulk-route-invariant", x.tagged_cbor().to_cbor_data() == b0, "bulk-route-invariant", || format!("add_many {:?}: {}", list, shape(&x)));
+                c.check("bulk-route-invariant", x.tagged_cbor().to_cbor_data() == b0, if collision { perm_key } else { "bulk-route-invariant" }, || format!("add_many {:?}: {}", list, shape(&x)));
             }
         }
         // an element whose digest is already present is ignored whatever its form (revealed / elided / compressed / encrypted)
@@ -447,10 +452,10 @@ pub fn c07(c: &mut Ctx, b: &Budget) {
                 let mut r = s.clone();
                 for a in &order { r = c.assign(&format!("add_env_unsalted {} {}", r, a)); }
                 c.obs(&format!("digest {}", r));
-                if let (Some(x), Some(rb)) = (c.env(&r), refb.as_ref()) { c.check("unsalted-route-invariant", &x.tagged_cbor().to_cbor_data() == rb, "permutation-invariant", || format!("add_assertion_envelope_salted(.., false) in order {:?}: {}", order, shape(&x))); }
+                if let (Some(x), Some(rb)) = (c.env(&r), refb.as_ref()) { c.check("unsalted-route-invariant", &x.tagged_cbor().to_cbor_data() == rb, perm_key, || format!("add_assertion_envelope_salted(.., false) in order {:?}: {}", order, shape(&x))); }
                 let m = c.assign(&format!("add_many_unsalted {} {}", s, order.join(",")));
                 c.obs(&format!("digest {}", m));
-                if let (Some(x), Some(rb)) = (c.env(&m), refb.as_ref()) { c.check("unsalted-route-invariant", &x.tagged_cbor().to_cbor_data() == rb, "permutation-invariant", || format!("add_assertions_salted(.., false) {:?}: {}", order, shape(&x))); }
+                if let (Some(x), Some(rb)) = (c.env(&m), refb.as_ref()) { c.check("unsalted-route-invariant", &x.tagged_cbor().to_cbor_data() == rb, perm_key, || format!("add_assertions_salted(.., false) {:?}: {}", order, shape(&x))); }
             }
             c.count("branch:unsalted-route");
         }
